@@ -257,12 +257,20 @@ def check(prop, scns, level="model_checking"):
     # layer 2: MintSteps (the mint at storage / Lightning call granularity) model-checked exhaustively, and every recorded call
     # sequence of the real mint validated against it
     import steps
-    layer2 = steps.design_check(sd, with_crash=False)
     by_tr = {}
     for sh in shards:
         for ex in load_shard(os.path.join(out, sh)):
             by_tr[ex[0]["tr"]] = ex
-    conf = steps.conformance(sd, scns, idx, by_tr)
+    try:
+        layer2 = steps.design_check(sd, with_crash=False)
+        conf = steps.conformance(sd, scns, idx, by_tr)
+    except Infra as ex:
+        if not viol:
+            raise
+        # a verdict from the real mint stands; what went wrong in the model-side analysis is reported with it
+        print("NOTE: layer 2 analysis did not complete: %s" % str(ex)[:300])
+        layer2 = {"error": str(ex)[:500], "distinct_states": 0, "states_generated": 0}
+        conf = {"error": str(ex)[:500], "drift": 0, "executions": 0, "per_scenario": []}
     if conf["drift"]:
         print("NOTE: %d of %d recorded call sequences are not behaviours of MintSteps (model drift, not a verdict): %s" % (
             conf["drift"], conf["executions"], [(r["scenario"], r["drift"][:1]) for r in conf["per_scenario"] if r["drift_n"]][:4]))
